@@ -173,7 +173,13 @@ class Extractor:
                 return []
             out = self.walk(init) if init is not None else []
             if "els" in n:
-                out += self.walk(n["els"])
+                els = self.walk(n["els"])
+                # reader: `let Some(v) = visitor.visit_x()? else { reader.skip(length)?; continue };` is the let-else spelling of
+                # `if let Some(v) = .. { <parse> } else { skip }`: the visitor declined, the skip consumes the same bytes unseen
+                declined = (side == "r" and init is not None and len(els) == 1 and els[0][1].get("i") == "skip" and els[0][1].get("n") is None
+                            and any((H.callee_name(x) or "").startswith("visit") for x in H.walk(init) if x.get("k") in ("call", "mcall")))
+                if not declined:
+                    out += els
             return out
         if k == "if":
             c = self.walk(n["cond"])
